@@ -377,8 +377,41 @@ def validate(ctx, name, traces, meta):
         ctx.violation(sig, what, dict(cfg=traces[i]["cfg"], input=traces[i].get("input"), encoding=traces[i].get("enc"), events=evs[:posn or len(evs)][-12:]))
 
 
+def describe_corral(cfg, note, minp, rounds):
+    def describe(at, posn, reason):
+        sig = corral_signature(cfg, minp, at)
+        what = "%s; call #%s %s %s   learner=%s rounds=%s" % (reason, posn, {k: v for k, v in (at or {}).items() if k in ("op", "res", "raw", "bacts", "ret")}, note or "", _short(cfg), json.dumps(rounds, default=str)[:260])
+        return sig, what
+    return describe
+
+
+def describe_exact(cfg, note):
+    def describe(at, posn, reason):
+        kind = cfg["k"] + ("+misguided" if cfg["mis"] else "")
+        op = (at or {}).get("op", "?"); res = (at or {}).get("res", "ok")
+        sig = "%s:%s-%s" % (kind, op, res.replace("raised:", "raises:")) if res != "ok" else "%s:%s-rejected" % (kind, op)
+        return sig, "%s; call #%s %s %s   learner=%s" % (reason, posn, {k: v for k, v in (at or {}).items() if k in ("op", "acts", "a", "r2", "ret", "raw", "res")}, note or "", _short(cfg))
+    return describe
+
+
+def replay_one(ctx, c):
+    """./check C16 --replay replays/C16/<sha>.json : one recorded case against the current tree"""
+    ctx.case("replay")
+    if "steps" in c:
+        bad = replay_exact(c["cfg"], c["steps"], c["encoding"], c["salt"]); ctx.traces += 1
+        if bad: ctx.violation(bad[0], bad[1], c)
+        return
+    cfg, rounds, ek = c["cfg"], [tuple(r) for r in c["input"]], c["encoding"]
+    if cfg["k"] == "corral":
+        evs, note, minp = record_corral(cfg, rounds, ek); d = describe_corral(cfg, note, minp, rounds)
+    else:
+        evs, note = record_exact(cfg, rounds, ek); d = describe_exact(cfg, note)
+    validate(ctx, "replay", [dict(cfg=cfg, ev=evs, input=rounds, enc=ek)], [d])
+
+
 def run(ctx):
     signal.signal(signal.SIGALRM, _alarm)
+    if ctx.replay: return replay_one(ctx, json.load(open(ctx.replay))["case"])
     rng = random.Random(ctx.seed)
     t0 = time.time()
     # ---------------- A: exact learners, TLC-enumerated behaviours replayed
@@ -432,10 +465,7 @@ def run(ctx):
     def add_corral(cfg, rounds, ek):
         evs, note, minp = record_corral(cfg, rounds, ek)
         ctx.case(hashlib.sha1(json.dumps([cfg, rounds, ek], sort_keys=True, default=str).encode()).hexdigest()[:20])
-        def describe(at, posn, reason, cfg=cfg, note=note, minp=minp, rounds=rounds):
-            sig = corral_signature(cfg, minp, at)
-            what = "%s; call #%s %s %s   learner=%s rounds=%s" % (reason, posn, {k: v for k, v in (at or {}).items() if k in ("op", "res", "raw", "bacts", "ret")}, note or "", _short(cfg), json.dumps(rounds, default=str)[:260])
-            return sig, what
+        describe = describe_corral(cfg, note, minp, rounds)
         traces.append(dict(cfg=cfg, ev=evs, input=rounds, enc=ek)); meta.append(describe); stat["corral"] += 1
         flush()
     # B1: Corral rounds enumerated by TLC (inputs only): M one-hot bases on M actions
@@ -470,11 +500,7 @@ def run(ctx):
         cfg, rounds = rand_exact(rng, nr); ek = ENCODINGS[j % 6]
         evs, note = record_exact(cfg, rounds, ek)
         ctx.case(hashlib.sha1(json.dumps([cfg, rounds, ek], sort_keys=True, default=str).encode()).hexdigest()[:20])
-        def describe(at, posn, reason, cfg=cfg, note=note, rounds=rounds):
-            kind = cfg["k"] + ("+misguided" if cfg["mis"] else "")
-            op = (at or {}).get("op", "?"); res = (at or {}).get("res", "ok")
-            sig = "%s:%s-%s" % (kind, op, res.replace("raised:", "raises:")) if res != "ok" else "%s:%s-rejected" % (kind, op)
-            return sig, "%s; call #%s %s %s   learner=%s" % (reason, posn, {k: v for k, v in (at or {}).items() if k in ("op", "acts", "a", "r2", "ret", "raw", "res")}, note or "", _short(cfg))
+        describe = describe_exact(cfg, note)
         traces.append(dict(cfg=cfg, ev=evs, input=rounds, enc=ek)); meta.append(describe); stat["exact"] += 1
         flush()
     flush(True)
